@@ -161,6 +161,9 @@ def constraints(atoms: set[str]) -> Formula:
             cs.append(disj([f_not(atom(a)), atom("HAS")]))
         if a.startswith("EXCL[anc:"):
             cs.append(disj([f_not(atom(a)), atom("∃" + a)]))
+        if a.startswith("INSCAN["):
+            # every scanned module lies below module_path: the parser names modules relative to the root (C04)
+            cs.append(disj([f_not(atom(a)), atom("INT[" + a[len("INSCAN["):])]))
     return conj(cs)
 
 
@@ -240,13 +243,13 @@ def part_key(repo: Repo, p: M.Part) -> str:
 
 
 def strip_unrelated(it: M.Interp, c: M.Coll) -> M.Coll:
-    """The collection with every filter whose condition does not depend on the external options made transparent: such filters
-    treat all configurations alike and are not the business of C10."""
+    """The collection with every filter whose condition mentions neither the external options nor the internal test / the scanned
+    modules made transparent: such filters treat all configurations and all kinds of modules alike and are not the business of C10."""
     parts = []
     for p in c.parts:
         if p.kind == "filter" and p.src is not None:
             src = strip_unrelated(it, p.src)
-            if not e_atoms(it, p.guard):
+            if not e_atoms(it, p.guard) and not any(is_canonical(a) for a in atoms_of(p.guard)):
                 parts += src.parts  # same elements, whatever the options
             else:
                 parts.append(M.Part(p.kind, p.guard, p.base, src, p.sym, p.what, p.items, p.fi, p.node, p.partial, p.loop))
@@ -577,6 +580,7 @@ def run(repo: Repo) -> Result:
     res.trusted_base = [
         "rules/c10_model.py (symbolic interpretation: one generic element per loop, exhaustive propositional evaluation)",
         "the public entry point rejects external patterns together with exclude_external_libraries (C13.R2): FLAG and HAS exclude each other",
+        "scanned modules lie below module_path (C04): the internal test accepts every scanned module",
         "vocabulary of the pipeline: FileFilter.is_excluded / has_filter, Parser.parse, ImportConverter.convert, Import.importee / importee_parent_modules, get_parent_modules, NetworkxGraph(modules, imports, ..)",
     ]
     it, internal, how = build_model(repo)
